@@ -101,7 +101,8 @@ def explore(polys, lead_rings=0, timeout=300, max_paths=4000, int_dtype=None):
     values.set_mul_mode('exact')
     t0 = time.time()
     it = Interp()
-    V = z3.Real       # polynomial sign conditions are decided over the reals (nlsat); unsat transfers to the integers, integral witnesses on demand
+    V = z3.Int if int_dtype else z3.Real       # reals: polynomial sign conditions decided by nlsat (unsat transfers to the integers); the
+    # integer family stores coordinates into an integer-typed buffer, so its symbols must be integers
     rings = []          # (vertex list closed, is_shell, in_slice)
     poly_offsets = []
     for k in range(lead_rings):
@@ -178,7 +179,7 @@ def explore(polys, lead_rings=0, timeout=300, max_paths=4000, int_dtype=None):
                 a_shell = shoelace2(rings[idx[0]][0])
                 valid = z3.And(*[z3.Or(z3.And(a_shell > 0, shoelace2(rings[i][0]) < 0), z3.And(a_shell < 0, shoelace2(rings[i][0]) > 0)) for i in idx[1:]])
                 conds.append(z3.Not(valid))
-        r_, m, dt, k = check_sliced(ex.solver, ex.pc, conds, integral=allv if int_dtype else None)
+        r_, m, dt, k = check_sliced(ex.solver, ex.pc, conds)
         ex.solver_s += dt
         nq += k
         if r_ == 'sat':
